@@ -510,4 +510,57 @@ mutual
     | .cons _ k _ _ v _ rest => (.str (decodeBody (k.flatMap SChar.bytes)), valueOf v) :: membersOf rest
 end
 
+/-! ### raw byte range of every node -/
+
+/-- Pre-order list of `text_range()` of every node reached by the walk (containers, object keys,
+values, array elements). -/
+def rangesWalk (x : Index) : Nat → Nat → List (Option (Nat × Nat))
+  | 0, _ => []
+  | fuel + 1, p =>
+    textRange x p ::
+      match value x p with
+      | .obj _ => (objectFields x p).flatMap fun kv => rangesWalk x fuel kv.1 ++ rangesWalk x fuel kv.2
+      | .arr _ => (children x p).flatMap (rangesWalk x fuel)
+      | _ => []
+
+open SV.JsonText in
+/-- byte length of a token segment -/
+def blen (ts : List Tok) : Nat := (toksBytes ts).length
+
+open SV.JsonText in
+mutual
+  /-- Pre-order list of the source spans `(start, end)` of every node of a value starting at byte
+  offset `a`: the token of a scalar or key, the bracketed span of a container. -/
+  def spansOf : JVal → Nat → List (Nat × Nat)
+    | .lit l, a => [(a, a + blen (JVal.lit l).toks)]
+    | .num n, a => [(a, a + blen (JVal.num n).toks)]
+    | .str s, a => [(a, a + blen (JVal.str s).toks)]
+    | .arr0 ws, a => [(a, a + blen (JVal.arr0 ws).toks)]
+    | .obj0 ws, a => [(a, a + blen (JVal.obj0 ws).toks)]
+    | .arr ws0 v ws1 rest, a =>
+      (a, a + blen (JVal.arr ws0 v ws1 rest).toks) ::
+        (spansOf v (a + blen (Tok.lbracket :: wsToks ws0)) ++
+         itemsSpans rest (a + blen (Tok.lbracket :: wsToks ws0) + blen v.toks + blen (wsToks ws1)))
+    | .obj ws0 k ws1 ws2 v ws3 rest, a =>
+      (a, a + blen (JVal.obj ws0 k ws1 ws2 v ws3 rest).toks) ::
+        ((a + blen (Tok.lbrace :: wsToks ws0), a + blen (Tok.lbrace :: wsToks ws0) + blen (JVal.str k).toks) ::
+         (spansOf v (a + blen (Tok.lbrace :: wsToks ws0) + blen (JVal.str k).toks
+            + blen (wsToks ws1 ++ (Tok.colon :: wsToks ws2))) ++
+          membersSpans rest (a + blen (Tok.lbrace :: wsToks ws0) + blen (JVal.str k).toks
+            + blen (wsToks ws1 ++ (Tok.colon :: wsToks ws2)) + blen v.toks + blen (wsToks ws3))))
+  def itemsSpans : JItems → Nat → List (Nat × Nat)
+    | .nil, _ => []
+    | .cons ws0 v ws1 rest, a =>
+      spansOf v (a + blen (Tok.comma :: wsToks ws0)) ++
+        itemsSpans rest (a + blen (Tok.comma :: wsToks ws0) + blen v.toks + blen (wsToks ws1))
+  def membersSpans : JMembers → Nat → List (Nat × Nat)
+    | .nil, _ => []
+    | .cons ws0 k ws1 ws2 v ws3 rest, a =>
+      (a + blen (Tok.comma :: wsToks ws0), a + blen (Tok.comma :: wsToks ws0) + blen (JVal.str k).toks) ::
+        (spansOf v (a + blen (Tok.comma :: wsToks ws0) + blen (JVal.str k).toks
+            + blen (wsToks ws1 ++ (Tok.colon :: wsToks ws2))) ++
+         membersSpans rest (a + blen (Tok.comma :: wsToks ws0) + blen (JVal.str k).toks
+            + blen (wsToks ws1 ++ (Tok.colon :: wsToks ws2)) + blen v.toks + blen (wsToks ws3)))
+end
+
 end SV.JsonNav
